@@ -55,7 +55,10 @@ def insert_hugr_is_isomorphic_embedding(dels):
     sym.check("mapping_domain_is_B_nodes", sorted(k.idx for k in mapping) == live)
     new = [v.idx for v in mapping.values()]
     sym.check("mapping_injective_onto_fresh_nodes", len(set(new)) == len(new) and all(i >= 3 for i in new))  # (3, 4 may be reused freed indices)
-    sym.check("handles_in_mapping_carry_the_count", all(v._num_out_ports == b[k]._num_outs or v._num_out_ports is None for k, v in mapping.items()))
+    okh = True
+    for k, v in mapping.items():   # a handle of the mapping knows the count of its node or none at all (the count may be symbolic: no iteration here)
+        okh = sym.and_(okh, sym.or_(v._num_out_ports is None, v._num_out_ports == b.num_out_ports(k)))
+    sym.check("handles_in_mapping_carry_the_count", okh)
     mu = {k.idx: v for k, v in mapping.items()}
     ok = True
     for i in live:
